@@ -3,6 +3,7 @@ value of the tree, obeys the triangle inequality, and the interned block builder
 from-scratch sum of isolated spend sizes, an upper bound of the exact size finalize() charges."""
 import json
 import os
+import time
 from checks.common import *
 
 W = 4  # TLC workers / parallel TLC processes (shared machine)
@@ -12,15 +13,29 @@ def sig(e):
     return {"event": e.get("k"), "origin": e.get("o", "hist")}
 
 
-def shard_histories(path, n, wd, prefix):
-    """split a history trace into n files without cutting a history (reset .. fin)"""
-    outs = [open(os.path.join(wd, "%s-%d.ndjson" % (prefix, i)), "w") for i in range(n)]
-    h = -1
-    with open(path) as f:
-        for line in f:
-            if len(line) < 200 and '"k":"reset"' in line:
-                h += 1
-            outs[max(h, 0) % n].write(line)
+def pack(paths, n, wd):
+    """distribute the events of the harness outputs over n trace files of about equal size without cutting a
+    history (reset .. fin); one TLC process per file (TLC start-up dominates small traces)"""
+    units, cur = [], None
+    for p in paths:
+        with open(p) as f:
+            for line in f:
+                if len(line) < 200 and '"k":"reset"' in line:
+                    cur = [line]
+                    units.append(cur)
+                elif cur is not None:
+                    cur.append(line)
+                    if '"k":"fin"' in line and '"gen_vb"' in line:
+                        cur = None
+                else:
+                    units.append([line])
+    units.sort(key=lambda u: -sum(map(len, u)))
+    size = [0] * n
+    outs = [open(os.path.join(wd, "trace-%d.ndjson" % i), "w") for i in range(n)]
+    for u in units:
+        i = size.index(min(size))
+        size[i] += sum(map(len, u)) + 4000 * len(u)
+        outs[i].writelines(u)
     for o in outs:
         o.close()
     return [o.name for o in outs if os.path.getsize(o.name) > 0]
@@ -39,12 +54,17 @@ def run(tier):
     wd = vlib.workdir("X04")
     quick = tier == "quick"
     # M + G: the laws of Interning.tla on every small table / every short builder history; each is a replay case
-    dag_cfgs = ["MC_Interning_quick.cfg", "MC_Interning_wide_quick.cfg"] if quick else ["MC_Interning.cfg", "MC_Interning_wide.cfg", "MC_Interning_deep.cfg"]
+    dag_cfgs = ["MC_Interning_quick.cfg", "MC_Interning_wide_quick.cfg"] if quick else ["MC_Interning.cfg", "MC_Interning_quick.cfg", "MC_Interning_wide.cfg", "MC_Interning_deep.cfg"]
     hist_cfgs = ["MC_Interning_hist_quick.cfg"] if quick else ["MC_Interning_hist.cfg", "MC_Interning_hist2.cfg"]
-    tree_paths, hist_paths = [], []
+    raw = []
     mc = {}
-    for i, cfg in enumerate(dag_cfgs + hist_cfgs):
-        cases, meta = gen_cases("MC_Interning.tla", cfg, workers=W, timeout=1500)
+    cfgs = dag_cfgs + hist_cfgs
+    # quick: the three small models side by side (2 + 1 + 1 workers); thorough: one after the other with W workers
+    with cf.ThreadPoolExecutor(max_workers=3 if quick else 1) as ex:
+        gens = list(ex.map(lambda ic: gen_cases("MC_Interning.tla", ic[1], workers=(2 if ic[0] == 0 else 1) if quick else W, timeout=1500), enumerate(cfgs)))
+    log("X04 models: %.0fs (%s)" % (time.time() - chk.t0, ", ".join("%s %.0fs" % (c, g[1].get("wall", 0)) for c, g in zip(cfgs, gens))))
+    for i, cfg in enumerate(cfgs):
+        cases, meta = gens[i]
         chk.states += meta["distinct"]
         chk.transitions += meta["generated"]
         mc[cfg] = {"states": meta["distinct"], "cases": meta["cases"]}
@@ -53,53 +73,51 @@ def run(tier):
         # R: the cases through the real code; the events are judged by TLC below
         t = os.path.join(wd, "mc%d.ndjson" % i)
         vlib.harness(["interning", "--cases", cases, "--seed", chk.seed + i, "--out", t])
-        if cfg in dag_cfgs:
-            tree_paths += shard_file(t, 1 if meta["cases"] < 20000 else W, wd, "mc%d" % i)
-        else:
-            hist_paths += shard_histories(t, 1 if meta["cases"] < 3000 else W, wd, "mc%d" % i)
+        raw.append(t)
     # T: seeded random tables (heavy sharing, duplicates, garbage, big atoms), real bundles, random histories
     t1 = os.path.join(wd, "random.ndjson")
     t2 = os.path.join(wd, "bundles.ndjson")
     t3 = os.path.join(wd, "hist.ndjson")
     if quick:
-        vlib.harness(["interning", "--seed", chk.seed, "--out", t1, "--random", 1500, "--big-atoms", 1])
-        vlib.harness(["interning", "--seed", chk.seed, "--out", t2, "--bundles", 16, "--bundle-nodes", 2500])
-        vlib.harness(["interning", "--seed", chk.seed, "--out", t3, "--hist", 500])
-        tree_paths += shard_file(t1, 2, wd, "random") + [t2]
-        hist_paths += shard_histories(t3, 2, wd, "hist")
+        vlib.harness(["interning", "--seed", chk.seed, "--out", t1, "--random", 600, "--big-atoms", 1])
+        vlib.harness(["interning", "--seed", chk.seed, "--out", t2, "--bundles", 10, "--bundle-nodes", 2500])
+        vlib.harness(["interning", "--seed", chk.seed, "--out", t3, "--hist", 200])
     else:
-        vlib.harness(["interning", "--seed", chk.seed, "--out", t1, "--random", 40000, "--big-atoms", 1])
+        vlib.harness(["interning", "--seed", chk.seed, "--out", t1, "--random", 10000, "--big-atoms", 1])
         vlib.harness(["interning", "--seed", chk.seed, "--out", t2, "--bundles", 92, "--bundle-nodes", 6000])
-        vlib.harness(["interning", "--seed", chk.seed, "--out", t3, "--hist", 8000])
-        tree_paths += shard_file(t1, W, wd, "random") + shard_file(t2, W, wd, "bundles")
-        hist_paths += shard_histories(t3, W, wd, "hist")
-    validate_parallel("Trace_Interning.tla", tree_paths + hist_paths, chk, "intern", sig_fn=sig, jobs=W, classes=["X04"], timeout=2400)
+        vlib.harness(["interning", "--seed", chk.seed, "--out", t3, "--hist", 2500])
+    raw += [t1, t2, t3]
+    paths = pack(raw, W, wd)
+    log("X04 harness done: %.0fs" % (time.time() - chk.t0))
+    validate_parallel("Trace_Interning.tla", paths, chk, "intern", sig_fn=sig, jobs=W, classes=["X04"], timeout=2400)
+    log("X04 traces validated: %.0fs" % (time.time() - chk.t0))
     if any(cls != "X04" for _, cls, _ in getattr(chk, "raw_mismatches", [])):
         raise ToolError("malformed events: %r" % [(i, cls) for i, cls, _ in chk.raw_mismatches if cls != "X04"][:5])
 
     # what was exercised (measured from the events)
     st = {"trees": 0, "shared": 0, "unfold_big": 0, "rbg2_ok": 0, "bundles": 0, "sb_ok": 0, "rbg2sb_ok": 0, "hist": 0, "accept": 0,
           "rollback": 0, "pre": 0, "full": 0, "done_by_skips": 0, "fin": 0, "fin_rbg2_ok": 0, "fin_est_gt_exact": 0}
-    for p in tree_paths:
-        for e in vlib.read_ndjson(p):
-            st["trees"] += 1
-            st["rbg2_ok"] += e["rbg2"]["k"] == "ok"
-            st["unfold_big"] += not e["vbu"]
-            if "items" in e:
-                st["bundles"] += 1
-                st["sb_ok"] += e["sb"]["k"] == "ok"
-                st["rbg2sb_ok"] += e["rbg2sb"]["k"] == "ok"
-            # non-trivial: interning matters - the interned size is smaller than the weight of the plain tree
-            if 0 <= e["vb"] < tree_weight_unshared(e["tbl"], e["root"]):
-                st["shared"] += 1
-                chk.nontrivial_add(("t", json.dumps(e["tbl"][:e["root"]])))
-                if e["o"] != "mc":
-                    chk.sample({k: e[k] for k in ("k", "o", "tbl", "root", "cpb", "vb", "vbb", "vbu", "serlen", "rbg2") if k in e}, limit=2)
-    for p in hist_paths:
+    nsamp = {"t": 0, "h": 0}
+    for p in paths:
         cur = cpb = mx = None
         ops = []
         for e in vlib.read_ndjson(p):
-            if e["k"] == "reset":
+            if e["k"] == "tree":
+                st["trees"] += 1
+                st["rbg2_ok"] += e["rbg2"]["k"] == "ok"
+                st["unfold_big"] += not e["vbu"]
+                if "items" in e:
+                    st["bundles"] += 1
+                    st["sb_ok"] += e["sb"]["k"] == "ok"
+                    st["rbg2sb_ok"] += e["rbg2sb"]["k"] == "ok"
+                # non-trivial: interning matters - the interned size is smaller than the weight of the plain tree
+                if 0 <= e["vb"] < tree_weight_unshared(e["tbl"], e["root"]):
+                    st["shared"] += 1
+                    chk.nontrivial_add(("t", json.dumps(e["tbl"][:e["root"]])))
+                    if e["o"] not in ("mc", "bundle") and len(e["tbl"]) < 12 and nsamp["t"] < 2:
+                        nsamp["t"] += 1
+                        chk.sample({k: e[k] for k in ("k", "o", "tbl", "root", "cpb", "vb", "vbb", "vbu", "serlen", "rbg2") if k in e}, limit=6)
+            elif e["k"] == "reset":
                 cpb, mx = e["cpb"], e["max"]
                 cur = 11 * cpb + 20
                 ops = []
@@ -125,8 +143,9 @@ def run(tier):
                 # non-trivial: an accepted batch AND a batch rejected after the tentative build in one history
                 if "accept" in kinds and "rollback" in kinds:
                     chk.nontrivial_add(("h", cpb, mx, tuple(ops)))
-                    if len(chk.samples) < 4:
-                        chk.sample({"cpb": cpb, "max": mx, "ops": [(k, d) for k, _, d in ops], "estimate": cur, "finalize": e["cost"]}, limit=4)
+                    if nsamp["h"] < 2 and len(ops) <= 4:
+                        nsamp["h"] += 1
+                        chk.sample({"cpb": cpb, "max": mx, "ops": [(k, d) for k, _, d in ops], "estimate": cur, "finalize": e["cost"]}, limit=6)
     chk.extra["exercised"] = st
     chk.extra["model_constants"] = mc
     for k in ("shared", "unfold_big", "rbg2_ok", "sb_ok", "rbg2sb_ok", "accept", "rollback", "pre", "full", "done_by_skips", "fin_rbg2_ok", "fin_est_gt_exact"):
